@@ -2,6 +2,7 @@
 import copy
 import os
 import re
+import time
 import vlib
 from graphwalk import Graph, limbs_to_int
 
@@ -261,7 +262,9 @@ def run_stream(c, focus):
                 drift_total += len(dr)
                 for i, got, want in dr[:5]:
                     vlib.log("MODEL-DRIFT (%s) event %d: code %s model %s" % (b, first + i, got, want))
+                t0 = time.time()
                 recs, eps, r = validate_histories(c, shard, b, "graph replay (%s)" % b)
+                vlib.log("[shard] %s graph%d records %d..%d validated in %.0fs" % (b, gi, first, first + cnt, time.time() - t0))
                 traces += len(eps)
                 nrec += cnt
                 c.add_events([e for e in recs if e["ev"] != "new"], key=lambda e: {k: v for k, v in e.items() if k not in ("st", "k")}, sample=1)
@@ -273,9 +276,14 @@ def run_stream(c, focus):
         # (e) random and test-suite-derived histories
         trace = os.path.join(wd, "rand-%s.ndjson" % b)
         vlib.run_harness(binary, ["stream-rand", "--seed", str(c.seed), "--tier", c.tier], out=trace)
-        recs, eps, r = validate_histories(c, trace, b, "random history (%s)" % b)
-        traces += len(eps)
-        c.add_events([e for e in recs if e["ev"] != "new"], key=lambda e: {k: v for k, v in e.items() if k not in ("st", "k")}, sample=1)
+        for shard, first, cnt in vlib.split_trace(trace):
+            t0 = time.time()
+            recs, eps, r = validate_histories(c, shard, b, "random history (%s)" % b)
+            vlib.log("[shard] %s random histories records %d..%d validated in %.0fs" % (b, first, first + cnt, time.time() - t0))
+            traces += len(eps)
+            c.add_events([e for e in recs if e["ev"] != "new"], key=lambda e: {k: v for k, v in e.items() if k not in ("st", "k")}, sample=1)
+            os.remove(shard)
+            del recs, eps
         if focus == "C11":
             trace = os.path.join(wd, "end64-%s.ndjson" % b)
             vlib.run_harness(binary, ["stream-end64", "--seed", str(c.seed), "--tier", c.tier], out=trace)
